@@ -140,6 +140,11 @@ class MasterScheduler(BaseScheduler):
                 self.ticker.time
                 + int((time_ns() - self.last_time) * self.simulation_speed)
             )
+        pending = self.wakeups.get(source)
+        if pending is not None and pending < when:
+            # A callback which is already due but has not been served yet is not
+            # displaced by the interrupt: the tick for it serves the interrupt too.
+            when = pending
         self._pending_interrupts.setdefault(source, when)
         self.add_wakeup(source, when)
 
